@@ -148,6 +148,10 @@ def run(ctx: Ctx) -> int:
             T.append(f"ds.SelectMany(lambda e: {A}).Select(lambda j: (j.tracks().SelectMany(lambda t: t.d0s()).Aggregate({sd}, lambda a, x: a - x), j.pt()))")
         T += [f"ds.Select(lambda e: {A}.Select(lambda j: j.trkPts().Select(lambda t: t * 2)).Count())", f"ds.Select(lambda e: {A}.Select(lambda j: j.tracks().Where(lambda t: t.pt() > 10.0)).Count() + {B}.Count())",
               f"ds.Select(lambda e: {A}.Select(lambda j: j.tracks().Select(lambda t: t.d0s().Select(lambda d: d + 1)).Count()))",
+              # ... whose inner sequences are themselves flattened / filtered (several nested loops per inner sequence)
+              f"ds.Select(lambda e: {A}.Select(lambda j: {B}.SelectMany(lambda k: k.trkPts())).Count())",
+              f"ds.Select(lambda e: {A}.Select(lambda j: j.tracks().SelectMany(lambda t: t.d0s())).Count())",
+              f"ds.Select(lambda e: {A}.Where(lambda j: j.pt() > 20.0).Select(lambda j: j.tracks().Where(lambda t: t.pt() > 5.0).SelectMany(lambda t: t.d0s())).Count())",
               f"ds.Select(lambda e: ({A}.SelectMany(lambda j: j.trkPts()).Count(), {A}.SelectMany(lambda j: j.trkPts()).Sum(), {A}.Count()))",
               f"ds.Where(lambda e: {A}.SelectMany(lambda j: j.tracks()).Count() > 0).Select(lambda e: {A}.SelectMany(lambda j: j.tracks()).First().pt())",
               f"ds.SelectMany(lambda e: {A}).Select(lambda j: j.tracks().Select(lambda t: Range(0, 3)))",
